@@ -1,0 +1,51 @@
+//go:build verif
+
+package reassembly
+
+// Accessors used only by the verification harness (build tag `verif`).
+// Add-only: nothing here changes the behaviour of the package.
+
+// VerifConnCount returns the number of connections currently in the pool.
+func (p *StreamPool) VerifConnCount() int {
+	p.mu.RLock()
+	defer p.mu.RUnlock()
+	return len(p.conns)
+}
+
+// VerifPagesUsed returns the number of pages handed out by the assembler's
+// page cache and not yet returned.
+func (a *Assembler) VerifPagesUsed() int {
+	return a.pc.used
+}
+
+func verifChain(p *page) int {
+	n := 0
+	for ; p != nil && n < 1<<20; p = p.next {
+		n++
+	}
+	return n
+}
+
+// VerifPages walks every live connection of the pool and returns the total
+// number of pages queued for out-of-order data in open half connections, the
+// largest such queue of a single half connection, and the total number of
+// pages kept on request of a stream (saved).  Closed half connections are not
+// walked (their queue pointers are stale after the release).
+func (p *StreamPool) VerifPages() (queued, maxHalf, saved int) {
+	for _, conn := range p.connections() {
+		conn.mu.Lock()
+		for _, half := range []*halfconnection{&conn.c2s, &conn.s2c} {
+			saved += verifChain(half.saved)
+			if half.closed {
+				continue
+			}
+			n := verifChain(half.first)
+			queued += n
+			if n > maxHalf {
+				maxHalf = n
+			}
+		}
+		conn.mu.Unlock()
+	}
+	return
+}
